@@ -122,7 +122,9 @@ def check_one(chk, rep, repo, cls, eff):
     # scratch arrays
     from ..common import require_scalar_fragment
     require_scalar_fragment(w, w.entry.qual)
-    scans = find_knn_scans(w)
+    from ..rules_knn import unclamp_k
+    wk = unclamp_k(w, ("attr", ("self",), "subgraph"))
+    scans = find_knn_scans(wk)
     # the number of neighbours consulted is a property of the model: it must not depend on the batch being predicted
     for sc0 in scans:
         dep = [t for t in subterms(sc0.slot) if t[0] == "new" and t[1] in ("Subgraph", "KNNSubgraph")] + \
